@@ -21,6 +21,7 @@ import (
 	"errors"
 	"fmt"
 	"log"
+	"math"
 	"net"
 	"net/http"
 	"net/url"
@@ -177,6 +178,12 @@ func makeHTTPServerWithHeaderLimit(s *http.Server, group []*SiteConfig) *http.Se
 	}
 
 	if min > 0 {
+		// net/http reads up to MaxHeaderBytes plus 4096 bytes of slack:
+		// the largest sizes the limits directive accepts would wrap that
+		// sum around, and every request would be refused with 431
+		if min > math.MaxInt64-4096 {
+			min = math.MaxInt64 - 4096
+		}
 		s.MaxHeaderBytes = int(min)
 	}
 	return s
